@@ -101,12 +101,15 @@ def set_encoding(encoding: str) -> None:
 
     global _target_encoding, _use_dec_special  # noqa: PLW0603  # noqa: PLW0603  # pylint: disable=global-statement
 
-    if encoding in {"utf-8", "utf8", "utf"}:
+    # Python's own spelling of codec names uses underscores (utf_8, euc_jp): the same encodings
+    family = encoding.replace("_", "-")
+
+    if family in {"utf-8", "utf8", "utf"}:
         encoding = "utf-8"  # the one spelling get_encoding() reports and the display modules compare with
         str_util.set_byte_encoding("utf8")
 
         _use_dec_special = False
-    elif encoding in {
+    elif family in {
         "euc-jp",  # JISX 0208 only
         "euc-kr",
         "euc-cn",
